@@ -32,6 +32,9 @@ var fixed = []core.Case{
 	{ID: "fix-cached-pinned-then-fetch", NT: true, Ops: []string{"pup y/ABA 0", "pyr y/ABA", "fetch y/ABA 0 100", "pin y/ABA", "fetch y/ABA 0 010", "gc 0", "read y/ABA"}},
 	// uploaded and cached files sharing chunks, both known to chunkinfo: protected by refcounts
 	{ID: "fix-upload-and-cache-share", NT: true, Ops: []string{"up x/AB 1", "pup y/ABA 0", "pyr y/ABA", "fetch y/ABA 0 111", "gc 0", "read x/AB", "pins"}},
+	// a file cached first and uploaded afterwards keeps its root in the gc index: the run deletes the uploaded chunks (and pins)
+	{ID: "fix-cached-then-uploaded", NT: true, Ops: []string{"pup w/c 0", "pyr w/c", "up w/c 0", "gc 1", "read w/c"}},
+	{ID: "fix-cached-then-uploaded-pinned", NT: true, Ops: []string{"pup y/a 0", "pyr y/a", "up y/a 1", "gc 1", "read y/a", "pins"}},
 	{ID: "fix-dir-pinned-cache-shares-file", NT: true, Ops: []string{"up p/a+q/b 1", "pup q/b+s/c 0", "pyr q/b+s/c", "fetch q/b+s/c 0 1", "fetch q/b+s/c 1 1", "gc 1", "read p/a+q/b"}},
 }
 
